@@ -26,10 +26,15 @@
 (*   TokensOK   every TID is addressed by exactly one table entry, the     *)
 (*              generator always advances (finding #9 when it does not);   *)
 (*   RefOK      the interval arithmetic that computes expected answers for *)
-(*              real-size corpora = plain set semantics.                   *)
+(*              real-size corpora = plain set semantics (searches,         *)
+(*              histograms, fetches, and aggregations grouped by every     *)
+(*              field: the group VALUES come from the token dictionary,    *)
+(*              i.e. from token.Table.GetEntryByTID on the sealed forms).  *)
 (* With the REAL constants (65536 / 4096 / 16 KiB) the same operators      *)
 (* compute, for boundary shape classes, the layout a sealed fraction must  *)
-(* have and the answers of a family of probes; these are emitted as CASEs  *)
+(* have and the answers of a family of probes (the aggregation probes are  *)
+(* derived from the predicted token-table entries: documents whose token   *)
+(* is the first / last of an entry); these are emitted as CASEs            *)
 (* and replayed into real fractions in every form (harness/cmd/shapes).    *)
 (***************************************************************************)
 EXTENDS Integers, Sequences, FiniteSets, TLC, Json, IOUtils
@@ -503,7 +508,44 @@ CountMod(A, m, r) == Sum([k \in 1..Len(A) |-> UpTo(A[k][2], m, r) - UpTo(A[k][1]
 HistI(s, A, iv) ==
   LET nb == (s.n \div s.d) \div iv IN
   SelectSeq([x \in 1..(nb + 1) |-> <<(x - 1) * iv, SizeS(InTime(s, A, (x - 1) * iv, (x - 1) * iv + iv - 1))>>], LAMBDA p : p[2] > 0)
-AggI(s, A) == SelectSeq([x \in 1..s.g |-> <<x - 1, CountMod(A, s.g, x - 1)>>], LAMBDA p : p[2] > 0)
+
+\* ---- aggregations.  An aggregation probe [t = "a", q, f, to, by, fn] groups the documents of the answer set by
+\* the token they carry in field `by` ("g" | "k" | "u" | "x"; "" = one group) and, per group, counts them
+\* (fn = "count" / "unique": processor.SingleSourceCountAggregator / SingleSourceUniqueAggregator) or collects the
+\* NUMERIC value of their u token (fn = "num": SingleSourceHistogramAggregator / TwoSourceAggregator; the u tokens
+\* are zero-padded decimals, the value of document i is i).  The value of a group is the token's TEXT, which the
+\* sealed form looks up through token.Table.GetEntryByTID -> token.Block.GetValByTID (frac/sealed_index.go
+\* GetValByTID), the active form in its in-memory token list: the answer must name the same tokens in every form,
+\* in particular for tokens that are the first / last of a token-table entry (token block) of their field.
+\* A group is named by an index: g -> the residue r (token "r"), k -> j (name j), u -> the document i (i in w
+\* digits), x -> 1.  The answer is a sequence of runs <<a, b, c>>: each of the names a..b has c documents.
+\* Field k is the only multi-valued one (overlapping k intervals): "by k" is asked only of document sets on
+\* which every document carries at most one k token (KSingleOn; which token stands for a multi-valued document
+\* is not specified anywhere).
+AggByI(s, A, by) ==
+  CASE by = "g" -> SelectSeq([x \in 1..s.g |-> <<x - 1, x - 1, CountMod(A, s.g, x - 1)>>], LAMBDA p : p[3] > 0)
+    [] by = "k" -> SelectSeq([j \in 1..Len(s.k) |-> <<j, j, SizeS(Clip(A, s.k[j].lo, s.k[j].hi))>>], LAMBDA p : p[3] > 0)
+    [] by = "u" -> LET C == Clip(A, s.ulo, s.uhi) IN [x \in 1..Len(C) |-> <<C[x][1], C[x][2], 1>>]
+    [] by = "x" -> LET c == SizeS(Clip(A, s.xlo, s.xhi)) IN IF c > 0 THEN <<<<1, 1, c>>>> ELSE <<>>
+AggDocs(R) == Sum([x \in 1..Len(R) |-> (R[x][2] - R[x][1] + 1) * R[x][3]])        \* documents that carry the field
+KSingleOn(s, A) == Sum([j \in 1..Len(s.k) |-> SizeS(Clip(A, s.k[j].lo, s.k[j].hi))]) = SizeS(AndS(A, KAnyI(s, Len(s.k))))
+\* the documents i of lo..hi with i mod m = r: the first and the last one
+ModFirst(lo, m, r) == lo + ((r - lo) % m)
+ModLast(hi, m, r) == hi - ((hi - r) % m)
+\* <<count, min, max, sum>> of {i in C : i mod m = r} (C a document set)
+NumOfRuns(C, m, r) ==
+  LET parts == SelectSeq([x \in 1..Len(C) |-> <<ModFirst(C[x][1], m, r), ModLast(C[x][2], m, r)>>], LAMBDA p : p[1] <= p[2])
+      cnt(p) == (p[2] - p[1]) \div m + 1
+  IN IF Len(parts) = 0 THEN <<0, 0, 0, 0>>
+     ELSE <<Sum([x \in 1..Len(parts) |-> cnt(parts[x])]), parts[1][1], parts[Len(parts)][2],
+            Sum([x \in 1..Len(parts) |-> (cnt(parts[x]) * (parts[x][1] + parts[x][2])) \div 2])>>
+\* rows <<group, count, min, max, sum, documents of the group without a u token>>, by = "g" or "" (group 0)
+NumI(s, A, by) ==
+  LET C == Clip(A, s.ulo, s.uhi)
+      m == IF by = "g" THEN s.g ELSE 1
+      row(r) == LET v == NumOfRuns(C, m, r) IN <<r, v[1], v[2], v[3], v[4], CountMod(A, m, r) - v[1]>>
+  IN SelectSeq([x \in 1..m |-> row(x - 1)], LAMBDA p : p[2] > 0 \/ p[6] > 0)
+NumMax == 4000       \* bound on the u documents of a "num" probe (sums stay far below 2^31)
 
 \* the expected answer of a probe
 AnswerI(s, p) ==
@@ -514,7 +556,8 @@ AnswerI(s, p) ==
                     [ids |-> IF p.order = "desc" THEN TakeDesc(A, p.limit) ELSE TakeAsc(A, p.limit),
                      total |-> SizeS(A), hist |-> HistI(s, A, p.iv)]
     [] p.t = "a" -> LET A == InTime(s, EvI(s, p.q), p.f, p.to) IN
-                    [total |-> SizeS(A), agg |-> AggI(s, A)]
+                    IF p.fn = "num" THEN [total |-> SizeS(A), num |-> NumI(s, A, p.by)]
+                    ELSE LET R == AggByI(s, A, p.by) IN [total |-> SizeS(A), agg |-> R, ne |-> SizeS(A) - AggDocs(R)]
     [] p.t = "f" -> [docs |-> [x \in 1..Len(p.ids) |->
                                  IF p.ids[x][2] \in 1..s.n /\ p.ids[x][2] \div s.d = p.ids[x][1] THEN p.ids[x][2] ELSE 0]]
 
@@ -540,6 +583,35 @@ RECURSIVE TopSeq(_, _, _)
 TopSeq(S, L, desc) == IF S = {} \/ L <= 0 THEN <<>>
                       ELSE LET m == IF desc THEN CHOOSE x \in S : \A y \in S : y <= x ELSE CHOOSE x \in S : \A y \in S : x <= y
                            IN <<m>> \o TopSeq(S \ {m}, L - 1, desc)
+\* the names of the tokens document i carries in field `by`
+TokOfDoc(s, by, i) ==
+  CASE by = "g" -> {i % s.g}
+    [] by = "k" -> {j \in 1..Len(s.k) : s.k[j].lo <= i /\ i <= s.k[j].hi}
+    [] by = "u" -> IF s.ulo <= i /\ i <= s.uhi THEN {i} ELSE {}
+    [] by = "x" -> IF s.xlo <= i /\ i <= s.xhi THEN {1} ELSE {}
+    [] by = "" -> {0}
+RECURSIVE SumSet(_)
+SumSet(S) == IF S = {} THEN 0 ELSE LET m == CHOOSE x \in S : TRUE IN m + SumSet(S \ {m})
+AggSetOK(s, p, S, ans) ==
+  IF p.fn = "num"
+  THEN LET groups == UNION {TokOfDoc(s, p.by, i) : i \in S} IN
+       /\ {ans.num[x][1] : x \in 1..Len(ans.num)} = groups
+       /\ \A x \in 1..Len(ans.num) : \A y \in 1..Len(ans.num) : x < y => ans.num[x][1] < ans.num[y][1]
+       /\ \A x \in 1..Len(ans.num) :
+             LET row == ans.num[x]
+                 G == {i \in S : row[1] \in TokOfDoc(s, p.by, i)}
+                 T == {i \in G : TokOfDoc(s, "u", i) # {}} IN
+             /\ row[2] = Cardinality(T) /\ row[6] = Cardinality(G \ T)
+             /\ T # {} => /\ row[3] = (CHOOSE m \in T : \A y \in T : m <= y)
+                           /\ row[4] = (CHOOSE m \in T : \A y \in T : y <= m)
+                           /\ row[5] = SumSet(T)
+  ELSE LET R == ans.agg IN
+       /\ \A i \in S : Cardinality(TokOfDoc(s, p.by, i)) <= 1           \* the precondition of "by k"
+       /\ \A x \in 1..Len(R) : /\ R[x][1] <= R[x][2] /\ R[x][3] > 0
+                                 /\ (x < Len(R) => R[x][2] < R[x + 1][1])
+                                 /\ \A v \in R[x][1]..R[x][2] : R[x][3] = Cardinality({i \in S : v \in TokOfDoc(s, p.by, i)})
+       /\ UNION {R[x][1]..R[x][2] : x \in 1..Len(R)} = UNION {TokOfDoc(s, p.by, i) : i \in S}
+       /\ ans.ne = Cardinality({i \in S : TokOfDoc(s, p.by, i) = {}})
 AnswerSetOK(s, p) ==
   LET ans == AnswerI(s, p) IN
   IF p.t = "f" THEN \A x \in 1..Len(p.ids) :
@@ -550,9 +622,7 @@ AnswerSetOK(s, p) ==
        /\ p.t = "h" => /\ \A x \in 1..Len(ans.hist) :
                              ans.hist[x][2] = Cardinality({i \in S : (i \div s.d) - ((i \div s.d) % p.iv) = ans.hist[x][1]}) /\ ans.hist[x][2] > 0
                        /\ {(i \div s.d) - ((i \div s.d) % p.iv) : i \in S} = {ans.hist[x][1] : x \in 1..Len(ans.hist)}
-       /\ p.t = "a" => /\ \A x \in 1..Len(ans.agg) :
-                             ans.agg[x][2] = Cardinality({i \in S : i % s.g = ans.agg[x][1]}) /\ ans.agg[x][2] > 0
-                       /\ {i % s.g : i \in S} = {ans.agg[x][1] : x \in 1..Len(ans.agg)}
+       /\ p.t = "a" => AggSetOK(s, p, S, ans)
 
 (***************************************************************************)
 (* 6. From a shape to its fields, its expected layout and its probes.      *)
@@ -605,6 +675,10 @@ INF == 1000000                       \* range end beyond every MID offset
 Q(op) == [op |-> op]
 QTok(j) == [op |-> "tok", j |-> j]
 SP(q, f, t, order, limit, wt) == [t |-> "s", q |-> q, f |-> f, to |-> t, order |-> order, limit |-> limit, wt |-> wt]
+AP(q, f, t, by, fn) == [t |-> "a", q |-> q, f |-> f, to |-> t, by |-> by, fn |-> fn]
+RECURSIVE QOrR(_, _)
+QOrR(qs, k) == IF k = 1 THEN qs[1] ELSE [op |-> "or", a |-> QOrR(qs, k - 1), b |-> qs[k]]
+QOr(qs) == QOrR(qs, Len(qs))                       \* qs non-empty
 
 \* documents at which a chunk of token j begins / ends (posting p of the token, ascending LID, is document hi - p + 1)
 ChunkBorderDocs(s, B, j) ==
@@ -638,8 +712,7 @@ KProbes(s, B, j) ==
   RangeProbes(s, q, cuts, 4) \o LimitProbes(s, q, cnt)
   \o <<[t |-> "h", q |-> q, f |-> 0, to |-> INF, order |-> "desc", limit |-> 3, iv |-> HistIv(s)],
        [t |-> "h", q |-> q, f |-> (s.k[j].lo + cnt \div 2) \div s.d, to |-> INF, order |-> "asc", limit |-> 3, iv |-> HistIv(s)]>>
-  \o (IF s.g > 0 THEN <<[t |-> "a", q |-> q, f |-> 0, to |-> INF],
-                        [t |-> "a", q |-> q, f |-> 0, to |-> (s.k[j].lo + cnt \div 2) \div s.d]>> ELSE <<>>)
+  \o (IF s.g > 0 THEN <<AP(q, 0, INF, "g", "count"), AP(q, 0, (s.k[j].lo + cnt \div 2) \div s.d, "g", "count")>> ELSE <<>>)
 
 PairProbes(s, a, b) ==
   LET qa == QTok(a)
@@ -660,8 +733,8 @@ AllProbes(s) ==
   RangeProbes(s, Q("all"), cuts, 3) \o LimitProbes(s, Q("all"), s.n)
   \o <<[t |-> "h", q |-> Q("all"), f |-> 0, to |-> INF, order |-> "desc", limit |-> 2, iv |-> HistIv(s)],
        SP([op |-> "not", a |-> Q("all")], 0, INF, "desc", 3, TRUE)>>
-  \o (IF s.g > 0 THEN <<[t |-> "a", q |-> Q("all"), f |-> 0, to |-> INF],
-                        [t |-> "a", q |-> Q("all"), f |-> (s.n \div 3) \div s.d, to |-> ((2 * s.n) \div 3) \div s.d]>> ELSE <<>>)
+  \o (IF s.g > 0 THEN <<AP(Q("all"), 0, INF, "g", "count"), AP(Q("all"), 0, INF, "g", "unique"),
+                        AP(Q("all"), (s.n \div 3) \div s.d, ((2 * s.n) \div 3) \div s.d, "g", "count")>> ELSE <<>>)
   \o (IF Len(s.k) >= 1 THEN <<SP(Q("kany"), 0, INF, "desc", 4, TRUE), SP(Q("kany"), 0, INF, "asc", 4, TRUE),
                               SP([op |-> "not", a |-> Q("kany")], 0, INF, "desc", 4, TRUE)>> ELSE <<>>)
 
@@ -712,7 +785,59 @@ XProbes(s) ==
        \o (IF Len(s.k) >= 1 THEN <<SP([op |-> "and", a |-> Q("x"), b |-> QTok(1)], 0, INF, "asc", 3, TRUE),
                                    SP([op |-> "or", a |-> Q("x"), b |-> QTok(1)], 0, INF, "desc", 3, TRUE)>> ELSE <<>>)
        \o (IF HasU(s) THEN <<SP([op |-> "and", a |-> Q("x"), b |-> Q("uall")], 0, INF, "desc", 3, TRUE)>> ELSE <<>>)
-       \o (IF s.g > 0 THEN <<[t |-> "a", q |-> Q("x"), f |-> 0, to |-> INF]>> ELSE <<>>)
+       \o (IF s.g > 0 THEN <<AP(Q("x"), 0, INF, "g", "count")>> ELSE <<>>)
+       \* grouped by x itself: the field whose (only) entry follows the entries of the u dictionary
+       \o <<AP(Q("all"), 0, INF, "x", "count"), AP(Q("x"), 0, INF, "x", "unique")>>
+
+\* ---- aggregations over the fields whose dictionaries span several token blocks (token.Table.GetEntryByTID /
+\* token.Block.GetValByTID on the sealed forms).  From the token-table entries the model predicts for the u field:
+\* the documents whose u token is the first token of an entry, the last token of the entry before, and their
+\* neighbours - all picked borders in one document set (windows), the border tokens alone, and a time cut around
+\* them (so that the aggregation's iterators get a [minLID, maxLID] range).
+EntryPicks(L) == IF L <= (IF Tier = "thorough" THEN 40 ELSE 7) THEN 1..L ELSE {1, 2, 3, L \div 2, L - 1, L}
+FullAggMax == IF Tier = "thorough" THEN 3 * (TokBlk \div 4) ELSE TokBlk \div 2      \* u tokens up to which "count by u" is asked of u:*
+UAggProbes(s, w) ==
+  IF ~HasU(s) THEN <<>>
+  ELSE
+  LET E == SelectSeq(w.entries, LAMBDA e : e.f = UFieldIdx(s))
+      U == s.uhi - s.ulo + 1
+      firsts == SortedSeq({E[x].maxpos - E[x].cnt + 1 : x \in EntryPicks(Len(E))})   \* field position of an entry's first token
+      doc(p) == s.ulo + p - 1
+      win == [x \in 1..Len(firsts) |-> [op |-> "ur", lo |-> Max2(s.ulo, doc(firsts[x]) - 2), hi |-> Min2(s.uhi, doc(firsts[x]) + 1)]]
+      qb == QOr(win)
+      later == SelectSeq(firsts, LAMBDA p : p > 1)                                  \* first tokens of the 2nd, 3rd, ... entry
+      few == IF Len(later) <= 3 THEN later ELSE <<later[1], later[Len(later) \div 2 + 1], later[Len(later)]>>
+      grp == IF s.g > 0 THEN "g" ELSE "" IN
+  <<AP(qb, 0, INF, "u", "count"), AP(qb, 0, INF, "u", "unique"), AP(qb, 0, INF, grp, "num")>>
+  \o Flat([x \in 1..Len(few) |->
+             <<AP([op |-> "u", i |-> doc(few[x])], 0, INF, "u", "count"),             \* the only hit: first token of a later entry
+               CASE x = 1 -> AP(Q("all"), (doc(few[x]) - 1) \div s.d, doc(few[x]) \div s.d, "u", "count")    \* a time cut around it
+                 [] x = 2 -> AP([op |-> "u", i |-> doc(few[x])], 0, INF, "", "num")
+                 [] OTHER -> AP([op |-> "u", i |-> doc(few[x]) - 1], 0, INF, "u", "unique")>>])       \* the last token of the entry before it
+  \o (IF U <= FullAggMax THEN <<AP(Q("uall"), 0, INF, "u", "count")>> ELSE <<>>)     \* every token of the dictionary
+  \o (IF U <= NumMax THEN <<AP(Q("uall"), 0, INF, grp, "num")>> ELSE <<>>)
+
+\* by k (names of up to 17 KiB: one token per token block once the field exceeds a block): the documents that carry
+\* exactly one k token, those and the documents without k, and every token alone
+KAggProbes(s) ==
+  IF Len(s.k) = 0 THEN <<>>
+  ELSE
+  LET m == Len(s.k)
+      others(j) == SelectSeq([x \in 1..m |-> x], LAMBDA x : x # j)
+      only(j) == IF m = 1 THEN QTok(j)
+                 ELSE [op |-> "and", a |-> QTok(j), b |-> [op |-> "not", a |-> QOr([x \in 1..(m - 1) |-> QTok(others(j)[x])])]]
+      single == QOr([j \in 1..m |-> only(j)]) IN
+  <<AP(single, 0, INF, "k", "count"), AP(single, 0, INF, "k", "unique"),
+    AP([op |-> "or", a |-> single, b |-> [op |-> "not", a |-> Q("kany")]], 0, INF, "k", "count")>>
+  \o [j \in 1..m |-> AP(only(j), 0, INF, "k", "count")]
+
+\* what the generator of probes must respect (checked while emitting and in mode "ref")
+ProbeSane(s, p) ==
+  p.t = "a" =>
+    LET A == InTime(s, EvI(s, p.q), p.f, p.to) IN
+    /\ p.by = "k" => KSingleOn(s, A)
+    /\ p.by = "g" => s.g > 0
+    /\ p.fn = "num" => p.by \in {"", "g"} /\ SizeS(Clip(A, s.ulo, s.uhi)) <= NumMax
 
 ProbesOf(s) ==
   LET B == Gen(LidFields(s))
@@ -722,12 +847,15 @@ ProbesOf(s) ==
   \o (IF Len(s.k) >= 2 THEN PairProbes(s, 1, 2) ELSE <<>>)
   \o (IF Len(s.k) >= 3 THEN PairProbes(s, 2, 3) ELSE <<>>)
   \o UProbes(s, w)
+  \o UAggProbes(s, w)
+  \o KAggProbes(s)
   \o XProbes(s)
   \o FetchProbes(s)
 
 WithAnswers(s) == LET P == ProbesOf(s) IN [x \in 1..Len(P) |-> [p |-> P[x], exp |-> AnswerI(s, P[x])]]
 
-RefOKOf(s) == LET P == ProbesOf(s) IN \A x \in 1..Len(P) : AnswerSetOK(s, P[x])
+RefOKOf(s) == LET P == ProbesOf(s) IN \A x \in 1..Len(P) : ProbeSane(s, P[x]) /\ AnswerSetOK(s, P[x])
+ProbesSaneOf(s) == LET P == ProbesOf(s) IN \A x \in 1..Len(P) : ProbeSane(s, P[x])
 
 (***************************************************************************)
 (* 7. Shape classes.                                                       *)
@@ -907,6 +1035,7 @@ EmitReal ==
     LET s == ShapeNo(st.i)
         lay == LayoutOf(s) IN
     /\ LayoutOKOf(LidFields(s))
+    /\ (lay.stuck \/ ProbesSaneOf(s))
     /\ PrintT(<<"CASE", ToJson([i |-> st.i, c |-> st.c, shape |-> s, cfg |-> CaseCfg(st.i, st.c), f9 |-> AsIsStuck(s),
                                 layout |-> lay, probes |-> IF lay.stuck THEN <<>> ELSE WithAnswers(s)])>>)
 =============================================================================
